@@ -256,6 +256,11 @@ fn fromf32(bits: u32) -> Verdict {
     let want = trunc_f32(f);
     let gi = must_return("BigInt::from_f32", || BigInt::from_f32(f))?;
     let gu = must_return("BigUint::from_f32", || BigUint::from_f32(f))?;
+    // the ToBigInt / ToBigUint impls for f32 are separate trait impls
+    let (ti, tu) = (must_return("f32::to_bigint", || f.to_bigint())?, must_return("f32::to_biguint", || f.to_biguint())?);
+    if ti != gi || tu != gu {
+        return Err(format!("f32 {:e}: to_bigint/to_biguint disagree with from_f32", f));
+    }
     match (&want, &gi) {
         (None, None) => {}
         (Some(w), Some(g)) => ctx(eq_bi(g, w), &format!("BigInt::from_f32({:e})", f))?,
@@ -359,7 +364,13 @@ impl Property for C08 {
             Tier::Quick => 700,
             Tier::Thorough => 4000,
         };
-        let big = prop_oneof![60 => boundary_value(), 40 => gen::int(3)];
+        let big = prop_oneof![
+            55 => boundary_value(),
+            30 => gen::int(3),
+            8 => gen::int(8),
+            // a fitting low part under zero middle digits and a non-zero high digit (early-exit-by-position logic)
+            7 => (any::<bool>(), gen::digit(), 1usize..=5, gen::digit()).prop_map(|(s, lo, z, hi)| { let mut v = vec![lo]; v.extend(std::iter::repeat(0).take(z)); v.push(hi | 1); (s, v) }),
+        ];
         prop_oneof![
             12 => big.clone().prop_map(|(_, a)| Case::new("toprim.u", vec![Arg::N(a)])),
             18 => big.prop_map(|(s, a)| Case::new("toprim.i", vec![Arg::Z(s, a)])),
